@@ -4,7 +4,7 @@ use palette::cast::ArrayCast;
 use palette::color_difference::{Ciede2000, DeltaE, EuclideanDistance, HyAb, ImprovedDeltaE, Wcag21RelativeContrast};
 use palette::convert::FromColorUnclamped;
 use palette::white_point::D65;
-use palette::{Alpha, Clamp as ColorClamp, Darken, Desaturate, GetHue, IsWithinBounds, Lighten, Mix, Saturate, ShiftHue, WithAlpha, WithHue};
+use palette::{Alpha, Clamp as ColorClamp, ClampAssign as ColorClampAssign, Darken, DarkenAssign, Desaturate, DesaturateAssign, GetHue, IsWithinBounds, Lighten, LightenAssign, Mix, MixAssign, Saturate, SaturateAssign, SetHue, ShiftHue, ShiftHueAssign, WithAlpha, WithHue};
 
 type TSrgb<T> = palette::Srgb<T>;
 type TLinSrgb<T> = palette::LinSrgb<T>;
@@ -104,6 +104,24 @@ macro_rules! op_body {
     (saturate_fixed, $x:ident, $y:ident, $f:ident, $t:ident) => { Saturate::saturate_fixed($x, $f) };
     (shift_hue, $x:ident, $y:ident, $f:ident, $t:ident) => { ShiftHue::shift_hue($x, $f * $t) };
     (with_hue, $x:ident, $y:ident, $f:ident, $t:ident) => { WithHue::with_hue($x, $f * $t) };
+    // the assigning forms (separately written macro output; a mask reduced to one bool instead of a lane-wise select
+    // only shows here, and only when the factor lanes have different signs)
+    (clamp_assign, $x:ident, $y:ident, $f:ident, $t:ident) => {{ let mut z = $x; ColorClampAssign::clamp_assign(&mut z); z }};
+    (mix_assign, $x:ident, $y:ident, $f:ident, $t:ident) => {{ let mut z = $x; MixAssign::mix_assign(&mut z, $y, $f); z }};
+    (lighten_assign, $x:ident, $y:ident, $f:ident, $t:ident) => {{ let mut z = $x; LightenAssign::lighten_assign(&mut z, $f); z }};
+    (darken_assign, $x:ident, $y:ident, $f:ident, $t:ident) => {{ let mut z = $x; DarkenAssign::darken_assign(&mut z, $f); z }};
+    (lighten_fixed_assign, $x:ident, $y:ident, $f:ident, $t:ident) => {{ let mut z = $x; LightenAssign::lighten_fixed_assign(&mut z, $f); z }};
+    (darken_fixed_assign, $x:ident, $y:ident, $f:ident, $t:ident) => {{ let mut z = $x; DarkenAssign::darken_fixed_assign(&mut z, $f); z }};
+    (saturate_assign, $x:ident, $y:ident, $f:ident, $t:ident) => {{ let mut z = $x; SaturateAssign::saturate_assign(&mut z, $f); z }};
+    (desaturate_assign, $x:ident, $y:ident, $f:ident, $t:ident) => {{ let mut z = $x; DesaturateAssign::desaturate_assign(&mut z, $f); z }};
+    (saturate_fixed_assign, $x:ident, $y:ident, $f:ident, $t:ident) => {{ let mut z = $x; SaturateAssign::saturate_fixed_assign(&mut z, $f); z }};
+    (shift_hue_assign, $x:ident, $y:ident, $f:ident, $t:ident) => {{ let mut z = $x; ShiftHueAssign::shift_hue_assign(&mut z, $f * $t); z }};
+    (set_hue, $x:ident, $y:ident, $f:ident, $t:ident) => {{ let mut z = $x; SetHue::set_hue(&mut z, $f * $t); z }};
+    (add_assign, $x:ident, $y:ident, $f:ident, $t:ident) => {{ let mut z = $x; z += $y; z }};
+    (sub_assign, $x:ident, $y:ident, $f:ident, $t:ident) => {{ let mut z = $x; z -= $y; z }};
+    (mul_assign, $x:ident, $y:ident, $f:ident, $t:ident) => {{ let mut z = $x; z *= $y; z }};
+    (div_assign, $x:ident, $y:ident, $f:ident, $t:ident) => {{ let mut z = $x; z /= $y; z }};
+    (mul_scalar_assign, $x:ident, $y:ident, $f:ident, $t:ident) => {{ let mut z = $x; z *= $f; z }};
     (add, $x:ident, $y:ident, $f:ident, $t:ident) => { $x + $y };
     (sub, $x:ident, $y:ident, $f:ident, $t:ident) => { $x - $y };
     (mul, $x:ident, $y:ident, $f:ident, $t:ident) => { $x * $y };
